@@ -47,6 +47,8 @@ def check_document(doc, cs, W, force):
 def api_sets(rng, n):
     la = Layout(origin=Point(Size(10, UnitEnum.PERCENT), Size(10, UnitEnum.PERCENT)), alignment=Alignment(HA.LEFT, VA.TOP))
     lb = Layout(origin=Point(Size(20, UnitEnum.PERCENT), Size(70, UnitEnum.PERCENT)), padding=Padding(*[Size(1, UnitEnum.PERCENT)] * 4))
+    lc = Layout(alignment=Alignment(None, VA.TOP))                      # (an alignment of one component only)
+    ld = Layout(origin=Point(Size(5, UnitEnum.PERCENT), Size(5, UnitEnum.PERCENT)), alignment=Alignment(HA.RIGHT, None))
     out = []
     for i in range(n):
         langs = rng.sample(["en-US", "fr", rng.choice(NASTY), "de"], rng.choice([1, 2, 3]))
@@ -63,13 +65,13 @@ def api_sets(rng, n):
                 if rng.random() < 0.5:
                     key = rng.choice(["italics", "class", "font-family", "color", "text-align"])
                     content = {key: True if key == "italics" else rng.choice(NASTY)}
-                    lay = rng.choice([None, la, lb])
+                    lay = rng.choice([None, la, lb, lc, ld])
                     nodes = [ST(True, content, lay), T(rng.choice(NASTY), lay), ST(False, content, lay), BR(), T("z")]
                 same = rng.random() < 0.3 and lst
                 s, e = (lst[-1].start, lst[-1].end) if same else (t, t + 10 ** 6)
                 ckey = rng.choice(["class", "font-family", "color", "italics"])
                 cstyle = {} if rng.random() < 0.5 else {ckey: True if ckey == "italics" else rng.choice(list(styles) + NASTY)}
-                lst.append(Caption(s, e, nodes, style=cstyle, layout_info=rng.choice([None, la, lb])))
+                lst.append(Caption(s, e, nodes, style=cstyle, layout_info=rng.choice([None, la, lb, lc, ld])))
                 t += 2 * 10 ** 6
             caps[l] = CaptionList(lst, layout_info=rng.choice([None, la]))
         if all(len(v) == 0 for v in caps.values()):
@@ -108,12 +110,22 @@ def bounded(ctx, b):
     # no language at all: a head and an empty body - and no region nothing refers to
     sets.append(("no_languages", CaptionSet({})))
     sets.append(("empty_last_language", CaptionSet({"en": CaptionList([Caption(0, 10 ** 6, [T("x")])]), "xx": CaptionList()})))
+    # captions with nothing to see are captions: one p each
+    sets.append(("blank_captions", CaptionSet({"en": CaptionList([
+        Caption(0, 10 ** 6, [T("\u00a0")]), Caption(10 ** 6, 2 * 10 ** 6, [T("  ")]), Caption(2 * 10 ** 6, 3 * 10 ** 6, [BR()]),
+        Caption(3 * 10 ** 6, 4 * 10 ** 6, [T(""), BR(), T("")]), Caption(4 * 10 ** 6, 5 * 10 ** 6, [T("x")])])})))
+    lv = Layout(alignment=Alignment(None, VA.CENTER))
+    lh = Layout(alignment=Alignment(HA.CENTER, None))
+    sets.append(("one_component_alignments", CaptionSet({"en": CaptionList([
+        Caption(0, 10 ** 6, [T("x", lv)], layout_info=lv), Caption(10 ** 6, 2 * 10 ** 6, [ST(True, {"italics": True}, lh), T("y", lh), ST(False, {"italics": True}, lh)], layout_info=lh)],
+        layout_info=lv)}, layout_info=lh)))
     # one writer object per configuration for every set of the run: a document depends on the caption set and the
     # options only, not on what the writer has written before
     shared = [W(**opts) for W, opts in WRITER_OPTIONS]
     for name, cs in sets:
         for wi, (W, opts) in enumerate(WRITER_OPTIONS):
-            for force in ["", (cs.get_languages() or ["en"])[-1], "zz"]:
+            last = (cs.get_languages() or ["en"])[-1]
+            for force in ["", last, "zz", last.swapcase()]:
                 def one(W=W, opts=opts, force=force, cs=cs, wi=wi):
                     try:
                         doc = shared[wi].write(cs, force=force)
@@ -142,6 +154,8 @@ def run(ctx):
     SP.prove_span_balance(ctx)
     import props.C07_span_tag as ST_
     ST_.prove_span_tag(ctx)
+    import props.C12 as L12
+    L12.prove_alignment(ctx)          # (an alignment attribute that is written has a value: a None value is a bare attribute name)
     ctx.bounded("documents", "caption sets read from sample documents of six formats and API-built sets (texts, style values, "
                 "class names and language codes with quotes, &, <, ]]>; styles named like region ids; spans with and "
                 "without markup; identical timespans; layouts at three levels) x three DFXP writers x options x force: "
